@@ -145,16 +145,23 @@ def is_args_var(t, var):
                 return i0['k'] == 'Call' and (callee_name(i0) or '').split('::')[-1] in ('parse', 'parse_from')
     return False
 
+CRATE_FOR_CLOSURES = [None]      # the crate whose closures the atomizer may read (set by the rule that uses it)
+
 class Atomizer:
-    def __init__(self, t=None, roles=None):
+    def __init__(self, t=None, roles=None, places=None):
         self.atoms = {}
         self.t = t
         self.lets = simple_lets(t) if t is not None else {}
         self.roles = roles or {}
+        self.places = places
+        self.crate = CRATE_FOR_CLOSURES[0]
     def norm(self, e):
         """readable normal form of a value expression: strips borrows, clones, to_string; local names for plain values are
         replaced by the value, variables with a known role by the role's name, fields of the parsed command line by args.<field>"""
         e = strip(e)
+        if self.places is not None:
+            pl = self.places.place(e)
+            if pl is not None and pl in self.roles: return self.roles[pl]
         if e['k'] in ('VarRef', 'UpvarRef'):
             if e['var'] in self.roles: return self.roles[e['var']]
             if e['var'] in self.lets: return self.norm(self.lets[e['var']])
@@ -193,6 +200,37 @@ class Atomizer:
                 return x if d.endswith('eq') else ('not', x)
             if c == 'core::slice::<impl [T]>::contains':
                 return self.atom(('in', self.norm(e['args'][1]), self.norm(e['args'][0])))
+            if d == 'std::iter::Iterator::any' and len(e['args']) == 2 and self.crate is not None:
+                # list.iter().any(|(a, b)| a == P && b == Q)  is  list.contains(&(P, Q))
+                cl = [x for x in walk(e['args'][1]) if x['k'] == 'Closure']
+                ct = self.crate.ithir.get(canon(cl[0]['def'])) if cl else None
+                if ct is not None and len(ct['params']) == 2:
+                    q = unwrap_pat(ct['params'][1]['pat'])
+                    comps = {}
+                    if q['k'] == 'Leaf' and 'adt' not in q:
+                        for sp in q['subs']:
+                            b_ = unwrap_pat(sp['pat'])
+                            if b_['k'] == 'Binding': comps[b_['var']] = sp['field']
+                    body = ct['body']
+                    while body['k'] in ('Use', 'NeverToAny') or (body['k'] == 'Block' and not body['stmts'] and body['expr'] is not None): body = body['source'] if body['k'] != 'Block' else body['expr']
+                    conj = []
+                    def flat(x):
+                        x = strip(x)
+                        if x['k'] == 'LogicalOp' and x['op'] == 'And': flat(x['lhs']); flat(x['rhs'])
+                        else: conj.append(x)
+                    flat(body)
+                    got = {}
+                    for x in conj:
+                        l = r = None
+                        if x['k'] == 'Call' and callee_decl(x) == 'std::cmp::PartialEq::eq': l, r = x['args']
+                        elif x['k'] == 'Binary' and x['op'] == 'Eq': l, r = x['lhs'], x['rhs']
+                        if l is None: got = None; break
+                        lv, rv = root_var(l), root_var(r)
+                        if lv in comps and rv not in comps: got[comps[lv]] = self.norm(r)
+                        elif rv in comps and lv not in comps: got[comps[rv]] = self.norm(l)
+                        else: got = None; break
+                    if got is not None and sorted(got) == [0, 1] and len(conj) == 2:
+                        return self.atom(('in', '(%s,%s)' % (got[0], got[1]), self.norm(e['args'][0])))
             if d in ('std::cmp::PartialOrd::lt', 'std::cmp::PartialOrd::gt', 'std::cmp::PartialOrd::le', 'std::cmp::PartialOrd::ge'):
                 a, b = self.norm(e['args'][0]), self.norm(e['args'][1])
                 op = d.split('::')[-1]
@@ -251,6 +289,52 @@ def is_push_to(varprefix):
     return pred
 
 # ------------------------------------------------------------------------------------------------ C16
+
+class Places:
+    """canonical names for the storage an expression denotes, up to local aliasing: `let x = y;`, `let x = &y.f;`,
+    `let S { a, b } = g;` (a is g.a), `let (a, b) = t;`, `let x = { ..; z };` (x is z: a helper's result after inlining)"""
+    def __init__(self, t):
+        self.alias = {}           # var -> (root var, field path tuple)
+        for b in walk(t['body']):
+            if b['k'] != 'Block': continue
+            for st in b['stmts']:
+                if st['k'] != 'Let' or st.get('init') is None: continue
+                src = self.raw(st['init'])
+                if src is None: continue
+                self.bind(st['pat'], src)
+    def bind(self, pat, src):
+        q = unwrap_pat(pat)
+        if q['k'] == 'Binding':
+            if q['var'] != src[0]: self.alias[q['var']] = src
+        elif q['k'] in ('Leaf', 'Variant') and q.get('subs') is not None:
+            for sp in q['subs']:
+                self.bind(sp['pat'], (src[0], src[1] + (sp['field'],)))
+    def raw(self, e):
+        """(root var, path) of a place expression, looking through borrows, clones and block tails; None otherwise"""
+        e = strip(e)
+        while True:
+            if e['k'] == 'Block' and e.get('expr') is not None: e = strip(e['expr']); continue
+            if e['k'] == 'Call' and e['args'] and (callee_decl(e) in ('std::clone::Clone::clone', 'std::convert::AsRef::as_ref', 'std::ops::Deref::deref', 'std::ops::DerefMut::deref_mut', 'std::borrow::ToOwned::to_owned',
+                                                                   'std::iter::IntoIterator::into_iter') or callee_name(e) in ('std::slice::<impl [T]>::to_vec', 'core::slice::<impl [T]>::iter', 'std::collections::HashSet::iter', 'std::vec::Vec::as_slice')):
+                e = strip(e['args'][0]); continue
+            break
+        if e['k'] in ('VarRef', 'UpvarRef'): return (e['var'], ())
+        if e['k'] == 'Field':
+            b = self.raw(e['lhs'])
+            if b is None: return None
+            return (b[0], b[1] + (e['field'],))
+        return None
+    def canon(self, pl, depth=0):
+        if pl is None: return None
+        while pl[0] in self.alias and depth < 20:
+            a = self.alias[pl[0]]
+            pl = (a[0], a[1] + pl[1]); depth += 1
+        return pl
+    def place(self, e):
+        pl = self.canon(self.raw(e))
+        if pl is None: return None
+        return pl[0] + ''.join('.%s' % f for f in pl[1])
+
 def for_loops(e):
     """[(iterable expr, bound pattern, body)] for every `for` loop below e (outermost first)"""
     out = []
@@ -268,37 +352,43 @@ def for_loops(e):
     return out
 
 def clique_roles(t):
-    """the variables of max_clique_gen::main by role, not by spelling: the two nested loops over one vertex collection (v1 outer,
+    """the storage of max_clique_gen::main by role, not by spelling: the two nested loops over one vertex collection (v1 outer,
     v2 inner), the list the loop pushes to (edges_complement), the other list the guard consults (edges)"""
+    P = Places(t)
     for (it1, p1, body1) in for_loops(t['body']):
-        X = root_var(it1)
+        X = P.place(it1)
         if X is None or p1['k'] != 'Binding': continue
         for (it2, p2, body2) in for_loops(body1):
-            if root_var(it2) != X or p2['k'] != 'Binding': continue
-            pushes = [x for x in walk(body2) if x['k'] == 'Call' and callee_name(x) == 'std::vec::Vec::push' and root_var(x['args'][0])]
-            targets = set(root_var(x['args'][0]) for x in pushes)
+            if P.place(it2) != X or p2['k'] != 'Binding': continue
+            pushes = [x for x in walk(body2) if x['k'] == 'Call' and callee_name(x) == 'std::vec::Vec::push' and P.place(x['args'][0])]
+            targets = set(P.place(x['args'][0]) for x in pushes)
             if len(targets) != 1: continue
             T = targets.pop()
             roles = {p1['var']: 'v1', p2['var']: 'v2', X: 'vertices', T: 'edges_complement'}
-            others = set(root_var(x['args'][0]) for x in walk(body2) if x['k'] == 'Call' and callee_name(x) == 'core::slice::<impl [T]>::contains') - {T, None}
+            others = set()
+            for x in walk(body2):
+                if x['k'] == 'Call' and callee_name(x) == 'core::slice::<impl [T]>::contains': others.add(P.place(x['args'][0]))
+                if x['k'] == 'Call' and callee_decl(x) == 'std::iter::Iterator::any': others.add(P.place(x['args'][0]))
+            others -= {T, None}
             if len(others) == 1: roles[others.pop()] = 'edges'
-            return roles, T
-    return None, None
+            return roles, T, P
+    return None, None, P
 
 def rule_max_clique(F, R):
     c = F.crate('max_clique_gen')
     t = c.ithir.get('max_clique_gen::main') if c else None
     if t is None:
         R.violation('max_clique_gen::main / L / anchor', 'UNDECIDABLE', 'max_clique_gen::main not found'); return
-    roles, T = clique_roles(t)
+    CRATE_FOR_CLOSURES[0] = c
+    roles, T, P = clique_roles(t)
     if roles is None:
         R.violation('max_clique_gen::main / L / vertex loops', 'L', 'no pair of nested loops over one vertex collection that fills a list of vertex pairs was found'); return
     R.count('L:vertex-loops', 2); R.obligation(True, 'L loops')
-    sites = push_sites(t, lambda e: callee_name(e) == 'std::vec::Vec::push' and root_var(e['args'][0]) == T)
+    sites = push_sites(t, lambda e: callee_name(e) == 'std::vec::Vec::push' and P.place(e['args'][0]) == T)
     R.count('L:complement-push-sites', len(sites))
     # pair-level specification: for two distinct vertices a, b the constraint -(a & b) is emitted (in either orientation, whichever is
     # visited first) iff a and b are NOT adjacent, where adjacent = (-u ? E(a,b) or E(b,a) : E(a,b) and E(b,a)); never for a == b
-    A = Atomizer(t, roles)
+    A = Atomizer(t, roles, P)
     FLAG = ('flag', 'args.undirected')
     try:
         conds = []
@@ -348,7 +438,7 @@ def rule_max_clique(F, R):
         R.violation('max_clique_gen::main / L / complement-edge insertion', 'L', 'for a pair of vertices the constraint -(a & b) must be emitted iff they are not adjacent; disagreement in %d case(s), e.g. %s' % (len(bad), bad[0]), t['span']['loc'])
     # the pushed pair is (v1, v2)
     for (call, _) in sites:
-        a = Atomizer(t, roles).norm(call['args'][1])
+        a = Atomizer(t, roles, P).norm(call['args'][1])
         ok = a == '(v1,v2)'
         R.obligation(ok, None)
         if not ok: R.violation('max_clique_gen::main / L / pushed pair', 'L', 'complement edge pushed as %s, expected (v1,v2)' % a, call['loc'])
@@ -356,12 +446,12 @@ def rule_max_clique(F, R):
     uses = []
     for e in walk(t['body']):
         if e['k'] == 'Call' and (callee_decl(e) == 'std::iter::IntoIterator::into_iter' or callee_name(e) == 'core::slice::<impl [T]>::iter'):
-            if root_var(e['args'][0]) == T: uses.append(e['loc'])
+            if P.place(e['args'][0]) == T: uses.append(e['loc'])
     R.count('L:complement-list-readers', len(uses)); R.obligation(len(uses) >= 2, 'L readers')
     if len(uses) < 2: R.violation('max_clique_gen::main / L / constraint copies', 'L', 'the plain and the v_-prefixed constraint blocks must both be generated from the complement-edge list (found %d readers)' % len(uses))
     # --all replaces the maximality part by `true`
     ok = False
-    N = Atomizer(t, roles)
+    N = Atomizer(t, roles, P)
     all_ifs = [e for e in walk(t['body']) if e['k'] == 'If' and e['cond']['k'] != 'Let' and strip(e['cond'])['k'] in ('VarRef', 'UpvarRef', 'Field') and N.norm(e['cond']) == 'args.all']
     for e in all_ifs:
         def lits(x):
@@ -381,7 +471,7 @@ def rule_max_clique(F, R):
     for e in all_ifs:
         if not e['else']: continue
         for x in walk(e['else']):
-            if x['k'] == 'Call' and callee_name(x) in ('std::collections::HashSet::iter',) and root_var(x['args'][0]) == X: n += 1
+            if x['k'] == 'Call' and callee_name(x) in ('std::collections::HashSet::iter',) and P.place(x['args'][0]) == X: n += 1
     R.count('L:vertex-list-uses', n); R.obligation(n == 3, 'L vertices uses')
     if n != 3: R.violation('max_clique_gen::main / L / vertex lists', 'L', 'the forall binder list and the two counting lists must each be generated from the vertex collection (found %d uses)' % n)
 
@@ -461,7 +551,7 @@ def graph_roles(c):
         if T: r[T] = 'edges'
         for (it, p, body) in for_loops(t['body']):
             vs = pat_vars(p)
-            if is_enumerate(it) and len(vs) == 2 and any(x['k'] == 'Call' and callee_name(x) == 'std::vec::Vec::push' for x in walk(body)) and 'v1' not in r.values():
+            if is_enumerate(it) and len(vs) == 2 and any(x['k'] == 'Call' and callee_name(x) == 'std::vec::Vec::push' for x in walk(body)) and not (vs[0] in r or vs[1] in r):
                 if vs[0]: r[vs[0]] = 'i'
                 if vs[1]: r[vs[1]] = 'v1'
                 X = root_var(strip(it)['args'][0]) if strip(it)['args'] else None
@@ -580,6 +670,40 @@ def rule_random_graph(F, R):
                 ok = rng_ok and bool(then_uses) and else_err and len(oks) == 1 and rolename(roles, src) == 'edges'
                 if not rng_ok: why = 'the slice taken is not 0..num_edges'
                 elif len(oks) != 1: why = 'there are %d Ok(..) results; only the checked slice may be returned' % len(oks)
+        if not ok:
+            # the other way to say it: `if num_edges > edges.len() { return Err(..) }`, then `edges.truncate(num_edges)`, then `Ok(edges)`
+            N = Atomizer(t, roles)
+            guards = []      # statements `if C { return Err }` of the function's own block, in order, with the statements after them
+            blk = body
+            while blk['k'] in ('Use', 'NeverToAny'): blk = blk['source']
+            stmts = list(blk['stmts']) + ([{'k': 'Expr', 'expr': blk['expr']}] if blk.get('expr') is not None else []) if blk['k'] == 'Block' else []
+            def short_guard(c):
+                """condition means num_edges > len(edges)"""
+                c = strip(c)
+                def is_len(x):
+                    x = strip(x)
+                    return x['k'] == 'Call' and (callee_name(x) or '').split('::')[-1] == 'len' and rolename(roles, root_var(x['args'][0])) == 'edges'
+                def is_k(x): return rolename(roles, root_var(x)) == 'num_edges' and strip(x)['k'] in ('VarRef', 'UpvarRef')
+                if c['k'] == 'Binary' and c['op'] == 'Gt': return is_k(c['lhs']) and is_len(c['rhs'])
+                if c['k'] == 'Binary' and c['op'] == 'Lt': return is_len(c['lhs']) and is_k(c['rhs'])
+                return False
+            state = 0
+            for st in stmts:
+                x = st['expr'] if st['k'] == 'Expr' else st.get('init')
+                if x is None: continue
+                y = x
+                while y['k'] in ('Use', 'NeverToAny') or (y['k'] == 'Block' and not y['stmts'] and y['expr'] is not None): y = y['source'] if y['k'] != 'Block' else y['expr']
+                if state == 0 and y['k'] == 'If' and y['cond']['k'] != 'Let' and y.get('else') is None and short_guard(y['cond']) and diverges(y['then']) and \
+                        any(z['k'] == 'Adt' and z['variant'] == 'Err' for z in walk(y['then'])):
+                    state = 1; continue
+                if state == 1 and y['k'] == 'Call' and callee_name(y) == 'std::vec::Vec::truncate' and rolename(roles, root_var(y['args'][0])) == 'edges' and rolename(roles, root_var(y['args'][1])) == 'num_edges':
+                    state = 2; continue
+                if state >= 1 and any(z['k'] == 'Call' and rolename(roles, root_var(z['args'][0]) if z['args'] else None) == 'edges' and (callee_name(z) or '').split('::')[-1] in ('push', 'extend', 'insert', 'append', 'clear', 'pop', 'remove', 'retain', 'drain') for z in walk(y)):
+                    state = -1; break
+                if state == 2 and y['k'] == 'Adt' and y['variant'] == 'Ok' and canon(y['adt']) == 'std::result::Result' and rolename(roles, root_var(y['fields'][0]['expr'])) == 'edges' and len(oks) == 1:
+                    state = 3
+            if state == 3: ok = True
+            elif state in (1, 2): why = 'after the feasibility test the candidate list must be cut to num_edges (`truncate`) and returned'
         R.count('L:refuse-not-truncate'); R.obligation(ok, 'L refuse')
         if not ok: R.violation(G + 'generate_graph / L / refuse-not-truncate', 'L', 'an infeasible request must be refused: ' + why, t['span']['loc'])
         # (b) candidates: directed under i != j, undirected from i+1
